@@ -197,6 +197,7 @@ func VerifRequestCacheRetryHistory() {
 	verif.Option("max_threads", 16)
 	verif.Option("max_preempt", 0)
 	verif.Option("sched_fixed", 1)
+	verif.Option("solver_bv_tactic", 1) // small queries of 64-bit time arithmetic
 	verif.Note("history harness: the runner goroutine of a finished request is waited for (gauge update after the result is recorded); schedules are the subject of the other RequestCache harnesses")
 	ttlS := verif.IntRange("error_ttl_seconds", 1, 20)
 	cleanS := verif.IntRange("cleanup_interval_seconds", 1, 40)
@@ -213,7 +214,7 @@ func VerifRequestCacheRetryHistory() {
 	var cur *verifHeldReq // accepted and held: in flight
 	var rejected []*verifHeldReq
 	haveErr := false
-	nowS, errAtS := 0, 0 // ghost time in seconds
+	var now, errAt time.Duration // ghost time (same unit as the clock: the oracle compares what the code compares)
 	acceptedStarts := 0
 
 	start := func() {
@@ -229,7 +230,7 @@ func VerifRequestCacheRetryHistory() {
 		case cur != nil:
 			verif.Assert("start-while-in-flight-reports-pending", r == ErrRequestPending)
 		case haveErr:
-			unexpired := nowS-errAtS <= ttlS
+			unexpired := now-errAt <= ttl // expiry = time of failure + ttl; expired means strictly after
 			verif.Cover("start-while-error-unexpired", unexpired)
 			verif.Cover("start-after-error-expired", !unexpired)
 			verif.Assert("unexpired-error-is-reported", verif.Implies(unexpired, r == verifErrBoom))
@@ -252,16 +253,17 @@ func VerifRequestCacheRetryHistory() {
 		<-cur.done
 		<-scope.updates // worker given back: the result has been recorded
 		haveErr = fail
-		errAtS = nowS
+		errAt = now
 		cur = nil
 	}
 
 	start()
-	steps := verif.Bound("history_steps", 4, 6)
+	steps := verif.Bound("history_steps", 4, 5)
 	for i := 0; i < steps; i++ {
 		d := verif.IntRange("seconds_pass", 0, 30)
-		clk.Add(time.Duration(d) * time.Second)
-		nowS += d
+		step := time.Duration(d) * time.Second
+		clk.Add(step)
+		now += step
 		if cur != nil && verif.Choice("finish_or_start", 2) == 0 {
 			fail := verif.Choice("request_fails", 2) == 1
 			finish(fail)
